@@ -1,7 +1,7 @@
 (* Correspondence obligations for C11: the model's outputs on the inputs the implementation ran.
    Each `*_mismatches` returns the indices of the cases on which the model and the observation differ. *)
 From Coq Require Import ZArith NArith Bool List.
-From PcoreV Require Import Model.Base Model.Json Model.Pb Model.PbMem Model.JsonSer Model.JsonStr.
+From PcoreV Require Import Model.Base Model.Json Model.Pb Model.PbMem Model.JsonSer Model.JsonStr Model.JsonText.
 Import ListNotations.
 Open Scope Z_scope.
 
@@ -110,3 +110,37 @@ Definition str_lexeme_check (c : lcase) : bool :=
   | LR lex d => opt_str_eqb (json_unquote lex) d
   end.
 Definition str_lexeme_mismatches (cs : list lcase) : list N := failing str_lexeme_check cs.
+
+(* ---- the bytes of a whole text (Model/JsonText.v).  The oracles of that model (strconv's float text and float
+   parsing) are supplied per case as tables holding the library's answers for the floats of the event tree
+   (json.Marshal) and for the fraction/exponent number lexemes of the bytes (strconv.ParseFloat). *)
+Inductive tcase :=
+| TW (e : ev) (ftab : list (Z * list N)) (ptab : list (list N * Z)) (written : res (list N)) (dec : option (list jtoken))
+    (* the bytes the REAL jsonStreamer wrote for e; the tokens the REAL json.Decoder (UseNumber) then delivers
+       (None: Token() reported an error before EOF) *)
+| TX (bytes : list N) (ptab : list (list N * Z)) (toks : list jtoken) (valid : bool) (dec : option (list jtoken)).
+    (* any text (random, damaged): the harness' tokenizer, json.Valid, the real Decoder's tokens *)
+
+(* json.Decoder.Token() never returns ',' or ':' *)
+Definition strip_sep (l : list jtoken) : list jtoken :=
+  filter (fun t => match t with Comma | Colon => false | _ => true end) l.
+
+Definition dec_check (toks : list jtoken) (dec : option (list jtoken)) : bool :=
+  match dec with Some d => toks_eqb (strip_sep toks) d | None => true end.
+
+Definition text_check (c : tcase) : bool :=
+  match c with
+  | TW e ftab ptab written dec =>
+      let ft := ftab_lookup ftab in
+      let pf := ptab_lookup ptab in
+      floats_lawful ft pf e &&                                             (* the law the theorems assume, on this case's floats *)
+      res_eqb toks_eqb (lex_res pf (btext ft e)) (lex_res pf written) &&   (* jsonstreamer.go at byte level vs the real bytes, modulo lexing *)
+      res_eqb toks_eqb (lex_res pf written) (stream_top e) &&              (* the real bytes seen through the model's tokenizer = the token model *)
+      match written with Ok bs => dec_check (lex pf bs) dec | _ => true end  (* the model's tokenizer vs json.Decoder on the real bytes *)
+  | TX bytes ptab toks valid dec =>
+      let pf := ptab_lookup ptab in
+      toks_eqb (lex pf bytes) toks &&                                      (* the model's tokenizer vs the harness' *)
+      Bool.eqb (json_valid (lex pf bytes)) valid &&                        (* ... + RFC 8259 recogniser vs json.Valid on the bytes *)
+      dec_check (lex pf bytes) dec
+  end.
+Definition text_mismatches (cs : list tcase) : list N := failing text_check cs.
